@@ -252,6 +252,12 @@ func init() {
 			{Name: "bytes", Run: c12Bytes},
 			{Name: "afteruse", Run: afterUse(c12Bytes)},
 			{Name: "srcviews", TShards: 2, Run: srcViewUnit(viewCallsC12)},
+			{Name: "casemasks", Run: caseMaskUnit("ACGTN", 48, 140, func(k *K, v []byte) {
+				checkRevComp(k, v, false)
+				if len(v) >= 3 {
+					checkCanonical(k, v, 1+len(v)/3)
+				}
+			})},
 			{Name: "longcontext", QShards: 8, TShards: 12, Run: func(c *Ctx) {
 				longContextPanics(c, 0, "ACGTNacgtn", []byte{'U', 'R', '@', 0, 0xff, 0x80, 'B', 'M'}, map[string]func([]byte){
 					"ReverseComplement":                           func(s []byte) { sequtil.ReverseComplement(nil, s) },
